@@ -8,10 +8,12 @@ package carapace
 import (
 	"encoding/json"
 
+	"github.com/carapace-sh/carapace/internal/cache"
 	"github.com/carapace-sh/carapace/internal/common"
 	"github.com/carapace-sh/carapace/internal/shell"
 	"github.com/carapace-sh/carapace/internal/shell/bash"
 	"github.com/carapace-sh/carapace/internal/shell/zsh"
+	"github.com/carapace-sh/carapace/pkg/cache/key"
 	"github.com/carapace-sh/carapace/pkg/match"
 )
 
@@ -68,4 +70,9 @@ func VerifTokenize(s string, dividers ...string) []string {
 // VerifExportJSON marshals the export document of an InvokedAction (InvokedAction.export).
 func VerifExportJSON(ia InvokedAction) ([]byte, error) {
 	return json.Marshal(ia.export())
+}
+
+// VerifCacheFile returns the cache file for a call site and keys (internal/cache.File).
+func VerifCacheFile(callerFile string, callerLine int, keys ...key.Key) (string, error) {
+	return cache.File(callerFile, callerLine, keys...)
 }
